@@ -2012,6 +2012,64 @@ impl<'tcx> Cx<'tcx> {
                                 return Ok(Some(unit));
                             }
                         }
+                        // in-place permutations and bulk copies of a window of known length, element by element
+                        "reverse" | "rotate_left" | "rotate_right" => {
+                            let k = if m == "reverse" { Some(0) } else { idx(1) };
+                            if let Some(k) = k {
+                                if k > len {
+                                    return Err("PANIC:assertion failed: mid <= self.len()".into());
+                                }
+                                let ps: Vec<Ptr<'tcx>> = (0..len).map(|i| self.elem_ptr(p, i)).collect::<R<Vec<_>>>()?;
+                                let vs: Vec<V<'tcx>> = ps.iter().map(|q| self.read(st, q)).collect::<R<Vec<_>>>()?;
+                                for i in 0..len {
+                                    let src = match m {
+                                        "reverse" => len - 1 - i,
+                                        "rotate_left" => (i + k) % len,
+                                        _ => (i + len - k % len.max(1)) % len,
+                                    };
+                                    self.write(st, &ps[i], vs[src].clone())?;
+                                }
+                                return Ok(Some(unit));
+                            }
+                        }
+                        "fill" if argv.len() == 2 => {
+                            let ety = match self.ptr_ty(st, p)?.kind() {
+                                ty::Slice(e) | ty::Array(e, _) => Some(*e),
+                                _ => None,
+                            };
+                            if ety.map(|e| self.scalar_like(e)).unwrap_or(false) {
+                                for i in 0..len {
+                                    let q = self.elem_ptr(p, i)?;
+                                    self.write(st, &q, argv[1].clone())?;
+                                }
+                                return Ok(Some(unit));
+                            }
+                        }
+                        "copy_from_slice" | "clone_from_slice" | "swap_with_slice" if argv.len() == 2 => {
+                            if let V::Ref(o) = &argv[1] {
+                                let ety = match self.ptr_ty(st, p)?.kind() {
+                                    ty::Slice(e) | ty::Array(e, _) => Some(*e),
+                                    _ => None,
+                                };
+                                let plain = m != "clone_from_slice" || ety.map(|e| self.scalar_like(e)).unwrap_or(false);
+                                if let (Some((_, olen)), true) = (o.win, plain) {
+                                    if olen != len {
+                                        return Err("PANIC:source slice length does not match destination slice length".into());
+                                    }
+                                    let vs: Vec<V<'tcx>> = (0..len).map(|i| self.elem_ptr(o, i).and_then(|q| self.read(st, &q))).collect::<R<Vec<_>>>()?;
+                                    let ws: Vec<V<'tcx>> = (0..len).map(|i| self.elem_ptr(p, i).and_then(|q| self.read(st, &q))).collect::<R<Vec<_>>>()?;
+                                    for i in 0..len {
+                                        let q = self.elem_ptr(p, i)?;
+                                        self.write(st, &q, vs[i].clone())?;
+                                        if m == "swap_with_slice" {
+                                            let q2 = self.elem_ptr(o, i)?;
+                                            self.write(st, &q2, ws[i].clone())?;
+                                        }
+                                    }
+                                    return Ok(Some(unit));
+                                }
+                            }
+                        }
                         // windows(n) / chunks_exact(n) with a concrete n: a by-value cursor over the list of sub-slices
                         "windows" | "chunks_exact" => {
                             if let Some(n) = idx(1) {
@@ -2415,6 +2473,27 @@ impl<'tcx> Cx<'tcx> {
         let resolved = match resolved {
             None if !always_opaque && name.starts_with("core::iter::") && !name.starts_with("core::iter::adapters::zip::") => self.resolve_parametric(cdid, cargs),
             r => r,
+        };
+        // a call through `&dyn Trait` whose receiver is known to point at a value of a concrete type (a local closure behind
+        // `&dyn Fn`): dispatch on that type
+        let dyn_recv = cargs.len() > 0 && cargs[0].as_type().map(|t| matches!(t.kind(), ty::Dynamic(..))).unwrap_or(false);
+        let resolved = if dyn_recv && !always_opaque && resolved.map(|i| matches!(i.def, InstanceKind::Virtual(..))).unwrap_or(true) {
+            let mut r = resolved;
+            if let Some(V::Ref(p)) = argv.first() {
+                if let Ok(pty) = self.ptr_ty(st, p) {
+                    if !matches!(pty.kind(), ty::Dynamic(..)) {
+                        let mut v: Vec<ty::GenericArg<'tcx>> = cargs.iter().collect();
+                        v[0] = pty.into();
+                        let nargs = tcx.mk_args(&v);
+                        if let Ok(Ok(Some(i2))) = std::panic::catch_unwind(std::panic::AssertUnwindSafe(|| Instance::try_resolve(tcx, self.tenv, cdid, nargs))) {
+                            r = Some(i2);
+                        }
+                    }
+                }
+            }
+            r
+        } else {
+            resolved
         };
         if let Some(inst) = resolved {
             let rpretty = tcx.def_path_str(inst.def_id());
